@@ -293,12 +293,27 @@ class C13(Check):
         sg = o.surface_group
         batch = [np.array(getattr(sg, k), dtype=float) for k in ('x', 'y', 'z', 'L', 'M', 'N', 'opd', 'intensity')]
         tol_surf = 1e-6 if any(s['type'] != 'standard' for s in spec['surfs']) else 0.0
+        # "beyond the surface-intersection tolerance": an iterated surface is met to 1e-6 (absolute, batch dependent);
+        # behind it the point error d becomes a slope error ~ |c| d that grows with the distance travelled
+        S_ = spec['surfs']
+        cmax = max([abs(1.0 / GL.fl(q['R'])) for q in S_ if q['R'] != GL.INF] + [0.0])
+        first_it = next((i for i, q in enumerate(S_) if q['type'] != 'standard'), None)
+        row_tol = np.full(len(S_) + 2, 1e-12 * Lsc)
+        if first_it is not None:
+            dist = 0.0
+            for r_ in range(first_it + 1, len(S_) + 2):
+                row_tol[r_] = max(row_tol[r_], 10 * tol_surf * (1 + 3 * cmax * dist))
+                if r_ - 1 < len(S_):
+                    dist += abs(float(S_[r_ - 1]['t']))
         for j in (1, 3):
             o.trace_generic(0.0, 0.7, float(Px[j]), float(Py[j]), w)
             single = [np.array(getattr(sg, k), dtype=float) for k in ('x', 'y', 'z', 'L', 'M', 'N', 'opd', 'intensity')]
             for k, (b_, s_) in enumerate(zip(batch, single)):
-                out.close('batch_independent', b_[:, j], s_[:, 0], atol=max(10 * tol_surf, 1e-12 * Lsc), rtol=1e-12,
-                          ray=j, quantity=k)
+                with np.errstate(all='ignore'):
+                    bad = np.abs(b_[:, j] - s_[:, 0]) > row_tol + 1e-12 * np.abs(s_[:, 0])
+                    bad |= np.isfinite(b_[:, j]) != np.isfinite(s_[:, 0])
+                out.expect('batch_independent', not np.any(bad), ray=j, quantity=k,
+                           rows=np.where(bad)[0][:4], got=b_[:, j][bad][:3], want=s_[:, 0][bad][:3], tol=row_tol[bad][:3])
         has_vig = any(fd['vx'] or fd['vy'] for fd in spec['fields'])
         out.nt(len(seq) >= 4 and len(kinds) >= 3 and repeated_after_other and has_vig)
 
